@@ -31,6 +31,7 @@ CONSTANTS
     MaxPairs,    \* longest pair list handed to update / the constructor
     SetVals,     \* value specs for SetItem / SetDefault
     PairVals,    \* value specs inside pair lists
+    Factories,   \* initial default hooks explored by this run: subset of {"None", "Dict"}
     AdoptSet,    \* {FALSE} or BOOLEAN: may the walk continue on a copy / a constructed dict
     Mode,        \* "graph" (every transition once) | "walk" (random behaviours)
     Bug          \* "none"; anything else selects a deliberately wrong variant (negative configs)
@@ -217,13 +218,14 @@ KeysOp == Commit(items, factory, heap, Op("Keys"), [t |-> "keys", n |-> 0, ks |-
 
 Init ==
     /\ items = <<>>
-    /\ factory \in {"None", "Dict"}
+    /\ factory \in Factories
     /\ heap = [i \in 1..MaxId |-> FreeObj]
     /\ obs = [op |-> Op("Init"), ret |-> NoneV, hp |-> heap, items |-> <<>>, factory |-> factory, fpre |-> factory]
     /\ hist = <<>>
 
-Next == GetItem \/ SetItem \/ DelItem \/ Contains \/ Get \/ Pop \/ SetDefault \/ Update \/ Construct
-        \/ Copy \/ DeepCopy \/ Pickle \/ KeysOp
+Within == Len(hist) < MaxSteps
+Next == Within /\ (GetItem \/ SetItem \/ DelItem \/ Contains \/ Get \/ Pop \/ SetDefault \/ Update \/ Construct
+        \/ Copy \/ DeepCopy \/ Pickle \/ KeysOp)
 
 Spec == Init /\ [][Next]_vars
 
@@ -287,10 +289,8 @@ Refines == Plain!Spec
 -----------------------------------------------------------------------------
 (* (G) emission                                                            *)
 \* graph mode: every transition whose pre-state lies within MaxSteps - 1 steps, printed once
-EmitEdge == /\ Len(hist) < MaxSteps
-            /\ PrintT(ToJson([pre |-> [items |-> items, factory |-> factory, heap |-> Dense(heap)],
+EmitEdge == PrintT(ToJson([pre |-> [items |-> items, factory |-> factory, heap |-> Dense(heap)],
                               e |-> [obs' EXCEPT !.hp = Dense(obs'.hp)], post |-> Dense(heap')]))
-Within   == Len(hist) < MaxSteps
 \* walk mode: the behaviour is printed when it is MaxSteps long
 EmitWalk == Len(hist) = MaxSteps => PrintT(ToJson([f0 |-> hist[1].fpre, walk |-> hist]))
 =============================================================================
